@@ -7,11 +7,169 @@ import Proofs.Slim
 namespace Model
 namespace Fits
 
+/-! ### flips -/
+
 theorem flipud_flipud (d : Data α) : flipud (flipud d) = d := by
   cases d <;> simp [flipud]
 
 theorem flipIf_flipIf (flip : Bool) (d : Data α) : flipIf flip (flipIf flip d) = d := by
   cases flip <;> simp [flipIf, flipud_flipud]
+
+/-! ### rows of a row-major list -/
+
+theorem toRows_length (h w : Nat) (a : List α) : (toRows h w a).length = h := by
+  induction h generalizing a with
+  | zero => rfl
+  | succ h ih => simp [toRows, ih]
+
+theorem toRows_flatten (h w : Nat) (a : List α) (ha : a.length = h * w) :
+    (toRows h w a).flatten = a := by
+  induction h generalizing a with
+  | zero => simp [toRows]; simpa using ha
+  | succ h ih =>
+    simp only [toRows, List.flatten_cons]
+    rw [ih (a.drop w) (by rw [List.length_drop, ha, Nat.succ_mul]; omega)]
+    exact List.take_append_drop w a
+
+theorem toRows_head_length (h w : Nat) (a : List α) (ha : a.length = (h + 1) * w) :
+    ((toRows (h + 1) w a).headD []).length = w := by
+  simp only [toRows, List.headD_cons, List.length_take]
+  rw [ha, Nat.succ_mul]; omega
+
+/-- every row has `w` entries -/
+theorem toRows_row_length (h w : Nat) (a : List α) (ha : a.length = h * w) :
+    ∀ r ∈ toRows h w a, r.length = w := by
+  induction h generalizing a with
+  | zero => simp [toRows]
+  | succ h ih =>
+    intro r hr
+    simp only [toRows, List.mem_cons] at hr
+    rcases hr with rfl | hr
+    · rw [List.length_take, ha, Nat.succ_mul]; omega
+    · exact ih (a.drop w) (by rw [List.length_drop, ha, Nat.succ_mul]; omega) r hr
+
+/-- entry `(y, x)` of the row view is entry `y*w + x` of the flat list -/
+theorem toRows_get (h w : Nat) (a : List α) (y x : Nat) (hy : y < h) (hx : x < w)
+    (ha : a.length = h * w) :
+    ((toRows h w a)[y]?.bind fun r => r[x]?) = a[y * w + x]? := by
+  induction h generalizing a y with
+  | zero => omega
+  | succ h ih =>
+    cases y with
+    | zero =>
+      simp only [toRows, List.getElem?_cons_zero, Option.bind_some, Nat.zero_mul, Nat.zero_add]
+      rw [List.getElem?_take_of_lt hx]
+    | succ y =>
+      simp only [toRows, List.getElem?_cons_succ]
+      rw [ih (a.drop w) y (by omega) (by rw [List.length_drop, ha, Nat.succ_mul]; omega)]
+      rw [List.getElem?_drop]
+      congr 1
+      rw [Nat.succ_mul]; omega
+
+/-! ### header cards -/
+
+theorem scales2d_roundtrip [DecidableEq α] (sy sx zero : α) :
+    scales2dFromHeader (pixelScaleHeader [sy, sx] zero) = some (sy, sx) := by
+  by_cases h : sx = sy
+  · subst h
+    simp [pixelScaleHeader, scales2dFromHeader]
+  · simp [pixelScaleHeader, scales2dFromHeader, List.lookup, h]
+
+theorem scales1d_roundtrip [DecidableEq α] (s zero : α) :
+    scales1dFromHeader (pixelScaleHeader [s] zero) = some s := by
+  simp [pixelScaleHeader, scales1dFromHeader]
+
+/-! ### slim/native facts (restated from property C01 so that this file only depends on Proofs.Slim) -/
+
+theorem slimFrom_length (m : Mask) (a : List α) (zero : α) :
+    (Impl.slimFrom m a zero).length = Impl.totalPixels m := by
+  rw [slimFrom_eq, totalPixels_eq]; simp [Spec.slimFrom]
+
+theorem nativeFrom_slimFrom (m : Mask) (a : List α) (zero : α) :
+    Impl.nativeFrom m (Impl.slimFrom m a zero) zero = Impl.applyMask m a zero := by
+  apply List.ext_getElem?
+  intro j
+  by_cases hj : j < m.h * m.w
+  · cases hm : m.bits.getD j true with
+    | true =>
+      rw [nativeFrom_masked m _ zero j hj hm]
+      have hm' : m.bits[j]?.getD true = true := by simpa using hm
+      simp [Impl.applyMask, hj, hm']
+    | false =>
+      obtain ⟨k, hk, hflat⟩ := exists_slim_index m j hj hm
+      have := nativeFrom_hit m (Impl.slimFrom m a zero) zero k hk
+      rw [hflat] at this
+      rw [this, slimFrom_eq]
+      have hm' : m.bits[j]?.getD true = false := by simpa using hm
+      simp [Impl.applyMask, hj, hm', Spec.slimFrom, hk, hflat]
+  · have h1 : (Impl.nativeFrom m (Impl.slimFrom m a zero) zero).length ≤ j := by
+      rw [nativeFrom_length]; omega
+    have h2 : (Impl.applyMask m a zero).length ≤ j := by simp [Impl.applyMask]; omega
+    rw [List.getElem?_eq_none h1, List.getElem?_eq_none h2]
+
+theorem applyMask_allFalse (h w : Nat) (v : List α) (zero : α) (hv : v.length = h * w) :
+    Impl.applyMask (allFalse h w) v zero = v := by
+  apply List.ext_getElem
+  · simp [Impl.applyMask, allFalse, hv]
+  · intro k h1 h2
+    have hk : k < h * w := by simpa [Impl.applyMask, allFalse] using h1
+    simp [Impl.applyMask, allFalse, hk, List.getElem?_eq_getElem h2]
+
+/-! ### `Array2D.no_mask` of a rectangular 2-D array gives that array back -/
+
+theorem noMask_toRows (h w : Nat) (v : List α) (sc : α × α) (zero : α) (hh : 0 < h)
+    (hv : v.length = h * w) :
+    ∃ r, noMask (toRows h w v) sc zero = some r ∧ r.mask = allFalse h w ∧ r.scales = sc
+      ∧ r.native zero = some v := by
+  obtain ⟨h', rfl⟩ : ∃ h', h = h' + 1 := ⟨h - 1, by omega⟩
+  have hlen : (toRows (h' + 1) w v).length = h' + 1 := toRows_length _ _ _
+  have hhead : ((toRows (h' + 1) w v).headD []).length = w := toRows_head_length h' w v hv
+  have hflat : (toRows (h' + 1) w v).flatten = v := toRows_flatten _ _ _ hv
+  refine ⟨⟨allFalse (h' + 1) w,
+    .slim (Impl.slimFrom (allFalse (h' + 1) w) (Impl.applyMask (allFalse (h' + 1) w) v zero) zero), sc⟩,
+    ?_, rfl, rfl, ?_⟩
+  · simp only [noMask, hlen, hhead, hflat]
+    simp [Impl.convertArray2d, allFalse, hv]
+  · simp only [Read2d.native, Impl.viewNative, Impl.Stored.toInput, Impl.convertArray2d]
+    rw [if_neg (by rw [slimFrom_length]; simp)]
+    simp only [if_true]
+    rw [nativeFrom_slimFrom, applyMask_allFalse _ _ _ _ hv, applyMask_allFalse _ _ _ _ hv]
+
+/-! ### bool ↔ float encoding of masks -/
+
+theorem numToBool_boolToNum [DecidableEq α] (zero one : α) (h : one ≠ zero) (b : Bool) :
+    numToBool zero (boolToNum zero one b) = b := by
+  cases b <;> simp [numToBool, boolToNum, h]
+
+theorem map_numToBool_boolToNum [DecidableEq α] (zero one : α) (h : one ≠ zero) (bits : List Bool) :
+    (bits.map (boolToNum zero one)).map (numToBool zero) = bits := by
+  rw [List.map_map]
+  conv => rhs; rw [← List.map_id bits]
+  apply List.map_congr_left
+  intro b _
+  exact numToBool_boolToNum zero one h b
+
+/-! ### reading back what the writers produce -/
+
+theorem array2dFromHdu_hduForOutput2d [DecidableEq α] (flip : Bool) (h w : Nat) (v : List α)
+    (sc : α × α) (zero : α) (hh : 0 < h) (hv : v.length = h * w) :
+    ∃ r, array2dFromHdu flip (hduForOutput2d flip (toRows h w v) (pixelScaleHeader [sc.1, sc.2] zero)) zero
+          = some r
+      ∧ r.mask = allFalse h w ∧ r.scales = sc ∧ r.native zero = some v := by
+  obtain ⟨r, h1, h2, h3, h4⟩ := noMask_toRows h w v sc zero hh hv
+  refine ⟨r, ?_, h2, h3, h4⟩
+  simp only [array2dFromHdu, hduForOutput2d, flipIf_flipIf, scales2d_roundtrip]
+  exact h1
+
+theorem array2dFromFits_hduForOutput2d (flip : Bool) (file : File α) (k : Nat) (h w : Nat)
+    (v : List α) (hdr : List (String × α)) (sc : α × α) (zero : α) (hh : 0 < h) (hv : v.length = h * w)
+    (hk : file[k]? = some (hduForOutput2d flip (toRows h w v) hdr)) :
+    ∃ r, array2dFromFits flip file k sc zero = some r
+      ∧ r.mask = allFalse h w ∧ r.scales = sc ∧ r.native zero = some v := by
+  obtain ⟨r, h1, h2, h3, h4⟩ := noMask_toRows h w v sc zero hh hv
+  refine ⟨r, ?_, h2, h3, h4⟩
+  simp only [array2dFromFits, hk, hduForOutput2d, flipIf_flipIf]
+  exact h1
 
 end Fits
 end Model
